@@ -3,6 +3,7 @@ CONSTANTS
   Kinds = {"A", "B"}
   MaxNest = 3
   MaxSteps = 9
+  ObjKeptInCatch = TRUE
   ObjAfterMsg = FALSE
   ClearActive = TRUE
   Emit = FALSE
